@@ -65,6 +65,13 @@ def gen_tree(rng, tt, depth, pos="top", allow_unicode=0.03):
     if kind == "vector":
         return ("vector", gen_tree(rng, tt, depth - 1, "inner", allow_unicode), rng.choice([1, 2, 3, 4, 8, 16]))
     # udt
+    if rng.random() < 0.12:
+        # recurring templates: the SAME (keyspace, name, field names) described again with field types that differ only in a
+        # vector's element type or in a nested user type's name - a stale per-name class cache must not answer for them
+        if rng.random() < 0.5:
+            m, c = rng.choice(tt.LEAVES)
+            return ("udt", "ks", "shape", [("v", ("vector", ("leaf", m, c), 3))])
+        return ("udt", "ks", "outer", [("f", ("udt", "ks", rng.choice(["a_t", "b_t", "c_t"]), [("x", ("leaf", "Int32Type", "int"))]))])
     q = rng.random()
     if q < allow_unicode:
         name = rng.choice(NAME_POOL_UNICODE)
